@@ -19,24 +19,33 @@ static bool replay(const vf::Case& c, std::string* why) {
 }
 
 static void run(const vf::Args& a, vf::Evidence& ev, vf::Reporter& rep) {
+  vf::History::enabled() = true;  // failing cases carry the cases that ran just before them (state between calls)
   EV = &ev;
   ev.rule = "rapidcheck: token lists over literal text, %%, every library-defined specifier (%Y %m %d %e %H %M %S %U %W %u %w %z %:z "
             "%::z %:::z %Ez %E*z %Z %s %ET %E4Y %E*S %E*f %E0..1024S/f) and 45 whitelisted libc conversions (incl. E/O modifiers) x "
             "zone panel (UTC, fixed offsets incl. -00:00:30 and +-23:59:59, 12 shipped zones) x anchored instants (int64 limits, "
-            "transitions, year boundaries -1000..10000 and the int-year limits, uniform) x femtoseconds; malformed tails appended in "
+            "transitions, year boundaries -1000..10000 and the int-year limits, uniform) x femtoseconds; one case in three stays in the previous case's zone within a day of its instant; one in twelve is a run of 6-14 expanding libc conversions; malformed tails appended in "
             "1/8 of the cases (dangling %, %E, %E*, %:, huge digit counts). Oracle: reference renderer from lookup() fields + strftime "
             "per libc token; otherwise determinism and literal-prefix preservation. Non-trivial = >= 2 tokens incl. a library-defined "
             "specifier and one of: year outside 0..9999, t at an int64 limit, 15-18 fraction digits, negative sub-minute offset.";
   long budget = a.budget(40000, 600000);
   vf::rc_run("C08.tokens", a.stream_seed(1), (int)budget, rep, [&]() {
     const auto& zs = fr::zones();
-    const fr::ZoneEntry& z = zs[*vf::index(zs.size())];
-    int n = *vf::range<int>(1, 8);
+    // one case in three stays in the zone of the previous case and moves only a little in time (seconds to a day): calls
+    // that follow each other closely, as in a loop over log records
+    static size_t prev_zi = 0; static int64_t prev_t = 0; static bool have_prev = false;
+    const bool near_prev = have_prev && *vf::range<int>(0, 2) == 0;
+    const size_t zi = near_prev ? prev_zi : *vf::index(zs.size());
+    const fr::ZoneEntry& z = zs[zi];
+    // one case in twelve is a run of 6-14 expanding libc conversions (output many times longer than the format)
+    const bool expanding = *vf::range<int>(0, 11) == 0;
+    int n = expanding ? *vf::range<int>(6, 14) : *vf::range<int>(1, 8);
     std::vector<fr::Token> toks;
     bool has_cctz = false, many_digits = false;
     for (int i = 0; i < n; ++i) {
       int k = *rc::gen::weightedElement<int>({{5, 0}, {2, 1}, {3, 2}});
       fr::Token tk = k == 0 ? *fr::cctz_token_gen() : k == 1 ? *fr::libc_token_gen() : *fr::literal_gen();
+      if (expanding) tk = fr::Token{fr::Token::LIBC, *rc::gen::element<std::string>("%c", "%c", "%Ec", "%A", "%B", "%x", "%X", "%r", "%D", "%F", "%T")};
       // two adjacent literals would merge; fine.  A literal starting with a digit right after %E<n> is still unambiguous.
       if (tk.kind == fr::Token::CCTZ) { has_cctz = true; if (tk.text.size() > 3 && tk.text[1] == 'E' && atoi(tk.text.c_str() + 2) >= 15) many_digits = true; }
       toks.push_back(tk);
@@ -44,7 +53,11 @@ static void run(const vf::Args& a, vf::Evidence& ev, vf::Reporter& rep) {
     std::string fmt = fr::join(toks);
     bool malformed = *vf::range<int>(0, 7) == 0;
     if (malformed) fmt += *rc::gen::element<std::string>("%", "%E", "%E*", "%:", "%::", "%:::", "%E99999999999999999999S", "%E1025f", "%E-3S", "%Ea", "%O", "%Q", "%E4", "%E*Y", "%:::::z", std::string("%Y\0%d", 5));
-    const int64_t t = fr::instant_gen(z.tz);
+    int64_t t = fr::instant_gen(z.tz);
+    if (near_prev) t = refcal::clamp64((vf::i128)prev_t + *rc::gen::element<int64_t>(1, -1, 59, -61, 3599, -3600, 18000, -19800, 43200, 86399, -86399, 86400, -86400) * *vf::range<int>(1, 2));
+    prev_zi = zi; prev_t = t; have_prev = true;
+    if (near_prev) EV->cls("same_zone_close_to_previous_instant");
+    if (expanding) EV->cls("run_of_expanding_libc_conversions");
     const int64_t fs = fr::femto_gen();
     vf::Case c; c.set("zone", z.label); c.set("format_hex", vf::hex(fmt)); c.set("format_printable", vf::esc(fmt)); c.set("t", t); c.set("fs", fs);
     vf::CurrentScope cur([&]() { return c; });
